@@ -14,7 +14,7 @@ from .. import ref
 from ..lab import LFS, make_odb, put_raw
 from ..world import World, digest_obj, walk_dirs, walk_files, write_file
 
-CONT = {"c1": b"one", "c2": b"two!"}
+CONT = {"c1": b"one", "c2": b"two!", "c3": b"3" * (2**21 + 1)}   # c3 is above the index builder's large-file threshold
 
 
 def file_variants(tier, side):
@@ -60,13 +60,13 @@ def dirs_of(tree):
     return out
 
 
-def fill_cache(odb, missing=()):
+def fill_cache(odb, missing=(), big=False):
     for c, data in CONT.items():
-        if c not in missing:
+        if c not in missing and (big or c != "c3"):
             put_raw(odb, ref.md5(data), data)
 
 
-def make_target(tree, form, odb):
+def make_target(tree, form, odb, second_fs=False):
     from dvc_data.hashfile.hash_info import HashInfo
     from dvc_data.hashfile.meta import Meta
     from dvc_data.index import DataIndex, DataIndexEntry, ObjectStorage
@@ -95,10 +95,31 @@ def make_target(tree, form, odb):
                 idx[(top,)] = DataIndexEntry(key=(top,), meta=Meta(isdir=True),
                                              hash_info=HashInfo("md5", oid))
     idx.storage_map.add_cache(ObjectStorage((), odb))
+    if form == "explicit" and second_fs:
+        # entries below d/ are served by a second cache that lives on another (in-memory) file system
+        from dvc_objects.fs.memory import MemoryFileSystem
+
+        from dvc_data.hashfile.db import HashFileDB
+
+        mfs = MemoryFileSystem()
+        mroot = f"memory://c09-second-cache-{os.getpid()}-{id(idx)}"
+        modb = HashFileDB(mfs, mroot)
+        for rel, (c, _ex) in tree.items():
+            if rel.startswith("d/"):
+                oid = ref.md5(CONT[c])
+                mpath = modb.oid_to_path(oid)
+                mfs.makedirs(mfs.parent(mpath), exist_ok=True)
+                mfs.pipe_file(mpath, CONT[c])
+                lp = odb.oid_to_path(oid)
+                if os.path.exists(lp) and not any(cc == c and not r2.startswith("d/") for r2, (cc, _e) in tree.items()):
+                    os.chmod(lp, 0o644)
+                    os.unlink(lp)   # only the second cache has it
+        idx.storage_map.add_cache(ObjectStorage(("d",), modb))
     return idx
 
 
-def one_exec(prior, target, form, delete, link, missing=(), missing_dir=None, hashless=False, handler="default"):
+def one_exec(prior, target, form, delete, link, missing=(), missing_dir=None, hashless=False, handler="default",
+             second_fs=False, dangling=(), old_by="md5"):
     from dvc_data.index import build as ibuild
     from dvc_data.index import md5 as imd5
     from dvc_data.index.checkout import apply, compare
@@ -109,15 +130,33 @@ def one_exec(prior, target, form, delete, link, missing=(), missing_dir=None, ha
         ws = w.mkdir("ws")
         for rel, (c, ex) in prior.items():
             write_file(os.path.join(ws, *rel.split("/")), CONT[c], ex)
+        for rel in dangling:
+            # a dangling symlink in the prior workspace (e.g. a symlinked checkout whose cache object is gone)
+            pth = os.path.join(ws, *rel.split("/"))
+            os.makedirs(os.path.dirname(pth), exist_ok=True)
+            os.symlink(w.p("nowhere", rel.replace("/", "_")), pth)
         odb = make_odb("local", w.p("cache"), type=[link])
-        fill_cache(odb, missing)
-        tgt = make_target(target, form, odb)
+        fill_cache(odb, missing, big=any(c == "c3" for c, _e in list(prior.values()) + list(target.values())))
+        tgt = make_target(target, form, odb, second_fs)
+
+        def ws_index():
+            if old_by == "build_entries":
+                # the workspace index computed in one pass (listing + hashing, as a status / diff command does)
+                from dvc_data.index import DataIndex
+                from dvc_data.index.build import build_entries
+
+                ix = DataIndex()
+                for e in build_entries(ws, LFS, compute_hash=True):
+                    ix[e.key] = e
+                return ix
+            return ibuild(ws, LFS) if hashless else imd5(ibuild(ws, LFS))
         if missing_dir:
             # the directory object of this (lazily loaded) top-level directory is not in storage
             ent = tgt[(missing_dir,)]
             os.unlink(odb.oid_to_path(ent.hash_info.value))
         # the first compare may be given a workspace index without content hashes
-        old = ibuild(ws, LFS) if hashless else imd5(ibuild(ws, LFS))
+        old = ws_index()
+        before_l = {rel: os.lstat(os.path.join(ws, *rel.split("/"))).st_ino for rel in prior}
         errors = []
         told = []
         if handler == "collect":
@@ -186,9 +225,17 @@ def one_exec(prior, target, form, delete, link, missing=(), missing_dir=None, ha
                 if ex and os.path.isfile(p) and not os.stat(p).st_mode & stat.S_IXUSR:
                     viol.append(("executable-entry-not-executable", rel))
             # second compare: nothing left to create or delete
-            tgt2 = make_target(target, form, odb)
+            tgt2 = make_target(target, form, odb, second_fs)
+            if old_by == "build_entries":
+                # a file that is the same in the prior workspace and in the target is left alone
+                for rel, (c, _e) in target.items():
+                    if prior.get(rel, (None,))[0] == c and rel in before_l:
+                        pth = os.path.join(ws, *rel.split("/"))
+                        if os.path.lexists(pth) and os.lstat(pth).st_ino != before_l[rel]:
+                            viol.append(("unchanged-file-rewritten", rel))
             try:
-                d2 = compare(imd5(ibuild(ws, LFS)), tgt2, delete=True)
+                hashless = False
+                d2 = compare(ws_index(), tgt2, delete=True)
                 left = {n: [e.key for e in getattr(d2, n)] for n in
                         ("files_delete", "dirs_delete", "files_create", "dirs_create")}
                 info["chmod_left"] = len(d2.files_chmod)
@@ -287,6 +334,39 @@ def run_case(case):
                         res["viol"].append((sig, detail, {"prior": prior, "target": target, "form": "lazy",
                                                           "delete": delete, "link": "copy", "missing": [],
                                                           "missing_dir": top}))
+    # special shapes, once (with the first prior): a second cache on another file system, dangling links in the
+    # prior workspace, a workspace index computed by build_entries() with a file above the large-file threshold
+    if case["i"] == 0:
+        specials = []
+        for tgt in ({"a": ("c1", False), "d/x": ("c2", False), "d/s/y": ("c1", True)},
+                    {"d/x": ("c1", False)}, {"a": ("c2", False), "d/s": ("c2", False)}):
+            for pr in ({}, {"d/x": ("c1", False)}, {"a": ("c1", False), "d": ("c2", False)}):
+                for delete in (True, False):
+                    specials.append((pr, tgt, dict(second_fs=True), delete))
+        for dl in (["dl"], ["d/dl"], ["dl", "d/s/dl"]):
+            for pr in ({}, {"d/x": ("c1", False)}):
+                for tgt in ({"a": ("c1", False)}, {"d/x": ("c1", False)}, {"d/s/y": ("c2", False)}):
+                    # (index.md5() drops entries whose file cannot be read, so the workspace index is the plain
+                    # listing or the one-pass build_entries() here)
+                    specials.append((pr, tgt, dict(dangling=dl, hashless=True), True))
+                    specials.append((pr, tgt, dict(dangling=dl, old_by="build_entries"), True))
+        for pr, tgt in (({"d/big": ("c3", False), "d/x": ("c1", False)}, {"d/big": ("c3", False), "d/x": ("c2", False)}),
+                        ({"big": ("c3", False)}, {"big": ("c3", False), "a": ("c1", False)}),
+                        ({"d/big": ("c3", False), "d/big2": ("c3", False)}, {"d/big": ("c3", False)}),
+                        ({"a": ("c1", False)}, {"a": ("c1", False), "d/big": ("c3", False)})):
+            specials.append((pr, tgt, dict(old_by="build_entries"), True))
+        for pr, tgt, kw, delete in specials:
+            viol, info = one_exec(pr, tgt, "explicit", delete, "copy", **kw)
+            res["n"] += 1
+            res["trans"] += 4
+            res["vac"]["special_shape_runs"] = res["vac"].get("special_shape_runs", 0) + 1
+            tag = "second-fs" if kw.get("second_fs") else ("dangling-link" if kw.get("dangling") else "build_entries")
+            for sig, detail in viol:
+                sig = f"{sig}/{tag}"
+                if sig not in sigs:
+                    sigs.add(sig)
+                    res["viol"].append((sig, detail, {"prior": pr, "target": tgt, "form": "explicit", "delete": delete,
+                                                      "link": "copy", "missing": [], "special": kw, "tag": tag}))
     res["outcomes"] = sorted(res["outcomes"])
     res["nontrivial"] = sorted(res["nontrivial"])
     if case["i"] == 9:
@@ -297,6 +377,9 @@ def run_case(case):
 
 def replay(case):
     fix = lambda t: {k: tuple(v) for k, v in t.items()}  # noqa: E731
+    if case.get("special"):
+        v = one_exec(fix(case["prior"]), fix(case["target"]), "explicit", case["delete"], "copy", **case["special"])[0]
+        return [(f"{s_}/{case['tag']}", d_) for s_, d_ in v]
     if case.get("missing_dir"):
         a = (fix(case["prior"]), fix(case["target"]), "lazy", case["delete"], "copy")
         v1, i1 = one_exec(*a, missing_dir=case["missing_dir"])
@@ -328,7 +411,7 @@ def run(ctx):
         "(the property demands that executable entries become executable, not that the exec bit is ever cleared)",
         "without delete only files that are neither target paths nor in the way of a target path must survive",
     ]
-    ctx.require("kind_changes", "nested_kind_changes", "exec_targets", "unavailable_runs", "unloadable_dir_runs")
+    ctx.require("kind_changes", "nested_kind_changes", "exec_targets", "unavailable_runs", "unloadable_dir_runs", "special_shape_runs")
     cs = []
     for i in range(len(priors)):
         links = ["copy"]
